@@ -116,7 +116,7 @@ Ltac prj :=
        with_status with_calls with_permit with_queue with_wpcs with_athreads with_gates with_gh
        set_thread set_wpc notify_waiters
        a_prog a_sub a_hist at_sub pop
-       name_reg pid_reg pg_reg cleanups ps_in ps_out n_term n_sup n_unlink
+       name_reg pid_reg pg_reg cleanups ps_in ps_out n_term n_sup n_unlink kids
        gh_pid gh_name gh_pg] in *.
 
 Lemma thread0_done_upd_S s l i t :
@@ -161,10 +161,10 @@ Proof.
   destruct p as [| | | |seen [n|]| | | |]; auto.
 Qed.
 
-Lemma init_inv s0 ws progs :
-  rank s0 < 5 -> Forall (fun p => wpc_initial p = true) ws -> Inv (mk_init s0 ws progs).
+Lemma init_inv s0 ws progs ks :
+  rank s0 < 5 -> Forall (fun p => wpc_initial p = true) ws -> Inv (mk_init_k s0 ws progs ks).
 Proof.
-  intros Hs Hw. constructor; unfold mk_init; prj.
+  intros Hs Hw. constructor; unfold mk_init_k, gh0k; prj.
   - rewrite sumf_zero.
     + assert (stat_eqb s0 Stopped = false) as ->; [|reflexivity].
       unfold stat_eqb. simpl. lia.
@@ -772,9 +772,9 @@ Proof.
   apply IH. apply InvS_step; auto.
 Qed.
 
-Lemma InvS_init P s0 ws : rank s0 < 5 -> exists t, InvS P (mk_init s0 ws [P]) t.
+Lemma InvS_init P s0 ws ks : rank s0 < 5 -> exists t, InvS P (mk_init_k s0 ws [P] ks) t.
 Proof.
-  intros H. exists (init_thread P). constructor; unfold mk_init, init_thread; prj; simpl; auto.
+  intros H. exists (init_thread P). constructor; unfold mk_init_k, gh0k, init_thread; prj; simpl; auto.
   - congruence.
   - left. lia.
   - intros x [].
@@ -843,11 +843,48 @@ Proof. destruct c, sup; simpl; intuition discriminate. Qed.
 Lemma exit_pre_stopping c sup : In Stopping (sets_of (exit_pre c sup)).
 Proof. destruct c, sup; simpl; auto. Qed.
 
+(* children: once terminate() has run, every child linked at exit time has been sent the kill
+   signal or was already Stopping/Stopped — any number of threads, any programs *)
+Definition kids_inv (g : ghost) : Prop := 0 < n_term g -> forallb kid_ok (kids g) = true.
+
+Lemma signal_kid_ok k : kid_ok (signal_kid k) = true.
+Proof. destruct k as [x b]. unfold kid_ok, signal_kid; simpl. destruct b; simpl; auto. lia. Qed.
+
+Lemma kids_inv_instr i g : kids_inv g -> kids_inv (gh_instr i g).
+Proof.
+  unfold kids_inv. destruct i; simpl; auto.
+  intros _ _. apply forallb_forall. intros k Hk. apply in_map_iff in Hk as (k0 & <- & _).
+  apply signal_kid_ok.
+Qed.
+
+Lemma kids_inv_step s l : kids_inv (gh s) -> kids_inv (gh (step s l)).
+Proof.
+  intros K. destruct l as [i|w|w| |g]; simpl.
+  - unfold astep. destruct (nth_error (athreads s) i) as [t|]; auto.
+    destruct (a_sub t); prj; auto.
+    + destruct (a_prog t) as [|[x|g| | | | | |] r]; prj; auto;
+        try (apply (kids_inv_instr _ _ K)).
+      * destruct ((5 <=? rank x) && (rank (status s) <? 5));
+          [|destruct ((rank x =? 6) && (rank (status s) <? 6))]; prj; auto.
+      * destruct (mem_gate g (gates s)); prj; auto.
+    + destruct (notify_one_frame s) as (_ & -> & _). auto.
+  - destruct (wstep_frame s w) as (_ & -> & _). auto.
+  - destruct (tstep_frame s w) as (_ & -> & _). auto.
+  - unfold dstep. destruct (rank (status s) <? 5); auto.
+  - auto.
+Qed.
+
+Lemma kids_inv_run ls s : kids_inv (gh s) -> kids_inv (gh (run ls s)).
+Proof. revert s; induction ls as [|l r IH]; intros s K; simpl; auto. apply IH, kids_inv_step; auto. Qed.
+
+Lemma kids_inv_init s0 ws progs ks : kids_inv (gh (mk_init_k s0 ws progs ks)).
+Proof. unfold kids_inv, mk_init_k, gh0k; prj. lia. Qed.
+
 Lemma fully_stopped_at c sup s t :
-  InvS (exit_prog c sup) s t -> status s = Stopped ->
+  InvS (exit_prog c sup) s t -> kids_inv (gh s) -> status s = Stopped ->
   fully_stopped (want_ps_of c) (want_sup_of c sup) (snapshot s) = true.
 Proof.
-  intros I Es.
+  intros I KI Es.
   destruct (stopped_prefix _ (exit_pre c sup) _ _ I (exit_prog_split c sup)
               (exit_pre_no_stopped c sup) Es) as [[Eh _]|[Eh _]].
   - assert (CL : cleaned (gh s)).
@@ -855,16 +892,20 @@ Proof.
       rewrite Eh. apply exit_pre_stopping. }
     destruct CL as (C1 & C2 & C3).
     pose proof (sG _ _ _ I) as (G1 & G2 & G3 & G4 & G5). rewrite Eh in *.
+    assert (KO : forallb kid_ok (kids (gh s)) = true).
+    { apply KI. rewrite G3. destruct c, sup; vm_compute; reflexivity. }
     unfold fully_stopped, snapshot. cbn [sn_status sn_name sn_pid sn_pg sn_ps_active sn_ps_done sn_children sn_sup].
-    rewrite Es, C1, C2, C3, G1, G2, G3, G4.
+    rewrite Es, C1, C2, C3, G1, G2, G3, G4, KO.
     destruct c, sup; vm_compute; reflexivity.
   - assert (CL : cleaned (gh s)).
     { apply (sA4 _ _ _ I). exists Stopping. split; [|simpl; lia].
       rewrite Eh, sets_of_app. apply in_or_app; left. apply exit_pre_stopping. }
     destruct CL as (C1 & C2 & C3).
     pose proof (sG _ _ _ I) as (G1 & G2 & G3 & G4 & G5). rewrite Eh in *.
+    assert (KO : forallb kid_ok (kids (gh s)) = true).
+    { apply KI. rewrite G3. destruct c, sup; vm_compute; reflexivity. }
     unfold fully_stopped, snapshot. cbn [sn_status sn_name sn_pid sn_pg sn_ps_active sn_ps_done sn_children sn_sup].
-    rewrite Es, C1, C2, C3, G1, G2, G3, G4.
+    rewrite Es, C1, C2, C3, G1, G2, G3, G4, KO.
     destruct c, sup; vm_compute; reflexivity.
 Qed.
 
@@ -886,8 +927,11 @@ Qed.
 Definition init_ok (s0 : stat) (ws : list wpc) : Prop :=
   rank s0 < 5 /\ Forall (fun p => wpc_initial p = true) ws.
 
-Lemma reach_inv s0 ws progs ls : init_ok s0 ws -> Inv (run ls (mk_init s0 ws progs)).
+Lemma reach_inv_k s0 ws progs ks ls : init_ok s0 ws -> Inv (run ls (mk_init_k s0 ws progs ks)).
 Proof. intros [H1 H2]. apply Inv_run. apply init_inv; auto. Qed.
+
+Lemma reach_inv s0 ws progs ls : init_ok s0 ws -> Inv (run ls (mk_init s0 ws progs)).
+Proof. apply reach_inv_k. Qed.
 
 (* --- status monotone --- *)
 Lemma step_status_mono s l : rank (status s) <= rank (status (step s l)).
@@ -926,17 +970,18 @@ Proof.
   exact (Forall_nth _ _ _ _ (iW _ I) E).
 Qed.
 
-Lemma early_return_full s0 ws c sup ls w :
+Lemma early_return_full s0 ws c sup ks ls w :
   init_ok s0 ws ->
-  let s := run ls (scenario_init s0 ws c sup) in
+  let s := run ls (scenario_init_k s0 ws c sup ks) in
   (nth_error (wpcs s) w = Some WDone \/ nth_error (wpcs s) w = Some WJDone) ->
   fully_stopped (want_ps_of c) (want_sup_of c sup) (snapshot s) = true.
 Proof.
-  intros H s E. unfold scenario_init in *.
-  pose proof (reach_inv s0 ws [exit_prog c sup] ls H) as I.
-  destruct (InvS_run (exit_prog c sup) ls _ (InvS_init _ s0 ws (proj1 H))) as (t & IS).
-  fold s in I, IS.
-  apply (fully_stopped_at c sup s t IS).
+  intros H s E. unfold scenario_init_k in *.
+  pose proof (reach_inv_k s0 ws [exit_prog c sup] ks ls H) as I.
+  destruct (InvS_run (exit_prog c sup) ls _ (InvS_init _ s0 ws ks (proj1 H))) as (t & IS).
+  pose proof (kids_inv_run ls _ (kids_inv_init s0 ws [exit_prog c sup] ks)) as KI.
+  fold s in I, IS, KI.
+  apply (fully_stopped_at c sup s t IS KI).
   destruct E as [E|E].
   - exact (Forall_nth _ _ _ _ (iW _ I) E).
   - eapply finished_stopped; eauto. exact (Forall_nth _ _ _ _ (iW _ I) E).
@@ -1145,19 +1190,20 @@ Proof.
 Qed.
 
 Lemma run_obs_ok c sup cpl ls s :
-  Inv s -> (exists t, InvS (exit_prog c sup) s t) ->
+  Inv s -> (exists t, InvS (exit_prog c sup) s t) -> kids_inv (gh s) ->
   forallb (obs_ok (want_ps_of c) (want_sup_of c sup) cpl) (fst (run_obs ls s)) = true.
 Proof.
-  revert s; induction ls as [|l r IH]; intros s I IS; simpl; auto.
+  revert s; induction ls as [|l r IH]; intros s I IS KI; simpl; auto.
   pose proof (Inv_step s l I) as I'. pose proof (InvS_step _ s l IS) as IS'.
-  specialize (IH _ I' IS'). destruct (run_obs r (step s l)) as [o s'']; simpl in *.
+  pose proof (kids_inv_step s l KI) as KI'.
+  specialize (IH _ I' IS' KI'). destruct (run_obs r (step s l)) as [o s'']; simpl in *.
   rewrite forallb_app, IH, andb_true_r.
   destruct (obs_of_shape s (step s l) l) as [->|(w & out & -> & Hout)]; auto.
   simpl. rewrite andb_true_r. unfold obs_ok; simpl.
   destruct IS' as (t & IS').
   destruct Hout as [[-> E]|[[-> E]| ->]]; auto.
-  - apply (fully_stopped_at c sup _ t IS'). exact (Forall_nth _ _ _ _ (iW _ I') E).
-  - apply (fully_stopped_at c sup _ t IS'). eapply finished_stopped; eauto.
+  - apply (fully_stopped_at c sup _ t IS' KI'). exact (Forall_nth _ _ _ _ (iW _ I') E).
+  - apply (fully_stopped_at c sup _ t IS' KI'). eapply finished_stopped; eauto.
     exact (Forall_nth _ _ _ _ (iW _ I') E).
 Qed.
 
@@ -1197,33 +1243,33 @@ Proof.
   destruct (terminal p); simpl; auto.
 Qed.
 
-Lemma oracle_sound s0 ws c sup ls :
+Lemma oracle_sound s0 ws c sup ks ls :
   init_ok s0 ws ->
-  check_C06 (want_ps_of c) (want_sup_of c sup) false (observe ls (scenario_init s0 ws c sup)) = true.
+  check_C06 (want_ps_of c) (want_sup_of c sup) false (observe ls (scenario_init_k s0 ws c sup ks)) = true.
 Proof.
-  intros H. unfold check_C06, observe, scenario_init.
-  pose proof (run_obs_snd ls (mk_init s0 ws [exit_prog c sup])) as Es.
-  pose proof (run_obs_ok c sup false ls (mk_init s0 ws [exit_prog c sup])
-               (init_inv _ _ _ (proj1 H) (proj2 H)) (InvS_init _ s0 ws (proj1 H))) as Ok.
-  pose proof (nondec_run ls (mk_init s0 ws [exit_prog c sup]) 0 0 ltac:(lia)) as Nd.
-  destruct (run_obs ls (mk_init s0 ws [exit_prog c sup])) as [o s']; simpl in *. subst s'.
+  intros H. unfold check_C06, observe, scenario_init_k.
+  pose proof (run_obs_snd ls (mk_init_k s0 ws [exit_prog c sup] ks)) as Es.
+  pose proof (run_obs_ok c sup false ls (mk_init_k s0 ws [exit_prog c sup] ks)
+               (init_inv _ _ _ ks (proj1 H) (proj2 H)) (InvS_init _ s0 ws ks (proj1 H)) (kids_inv_init _ _ _ ks)) as Ok.
+  pose proof (nondec_run ls (mk_init_k s0 ws [exit_prog c sup] ks) 0 0 ltac:(lia)) as Nd.
+  destruct (run_obs ls (mk_init_k s0 ws [exit_prog c sup] ks)) as [o s']; simpl in *. subst s'.
   rewrite forallb_app, Ok, pending_ok, Nd. reflexivity.
 Qed.
 
-Lemma oracle_sound_complete s0 ws c sup ls :
+Lemma oracle_sound_complete s0 ws c sup ks ls :
   init_ok s0 ws ->
-  let s := run ls (scenario_init s0 ws c sup) in
+  let s := run ls (scenario_init_k s0 ws c sup ks) in
   threads_done s = true -> status s = Stopped ->
   (forall w p, nth_error (wpcs s) w = Some p -> can_move s p = false) ->
-  check_C06 (want_ps_of c) (want_sup_of c sup) true (observe ls (scenario_init s0 ws c sup)) = true.
+  check_C06 (want_ps_of c) (want_sup_of c sup) true (observe ls (scenario_init_k s0 ws c sup ks)) = true.
 Proof.
-  intros H s D St Q. unfold check_C06, observe, scenario_init in *.
-  pose proof (run_obs_snd ls (mk_init s0 ws [exit_prog c sup])) as Es.
-  pose proof (run_obs_ok c sup true ls (mk_init s0 ws [exit_prog c sup])
-               (init_inv _ _ _ (proj1 H) (proj2 H)) (InvS_init _ s0 ws (proj1 H))) as Ok.
-  pose proof (nondec_run ls (mk_init s0 ws [exit_prog c sup]) 0 0 ltac:(lia)) as Nd.
-  pose proof (reach_inv s0 ws [exit_prog c sup] ls H) as I.
-  destruct (run_obs ls (mk_init s0 ws [exit_prog c sup])) as [o s']; simpl in *. subst s'.
+  intros H s D St Q. unfold check_C06, observe, scenario_init_k in *.
+  pose proof (run_obs_snd ls (mk_init_k s0 ws [exit_prog c sup] ks)) as Es.
+  pose proof (run_obs_ok c sup true ls (mk_init_k s0 ws [exit_prog c sup] ks)
+               (init_inv _ _ _ ks (proj1 H) (proj2 H)) (InvS_init _ s0 ws ks (proj1 H)) (kids_inv_init _ _ _ ks)) as Ok.
+  pose proof (nondec_run ls (mk_init_k s0 ws [exit_prog c sup] ks) 0 0 ltac:(lia)) as Nd.
+  pose proof (reach_inv_k s0 ws [exit_prog c sup] ks ls H) as I.
+  destruct (run_obs ls (mk_init_k s0 ws [exit_prog c sup] ks)) as [o s']; simpl in *. subst s'.
   fold s in Nd, I |- *.
   assert (PN : pending_from 0 (wpcs s) (snapshot s) = []).
   { apply pending_none. intros p Hp. apply In_nth_error in Hp as (w & Hw).
@@ -1423,7 +1469,7 @@ Proof. revert s; induction ls as [|l r IH]; intros s Q; simpl; auto. apply IH, I
 
 Lemma InvQ_init s0 ws progs : Forall (fun p => wpc_initial p = true) ws -> InvQ (mk_init s0 ws progs).
 Proof.
-  intros H. constructor; unfold mk_init; prj; [|constructor].
+  intros H. constructor; unfold mk_init, mk_init_k; prj; [|constructor].
   intros w. simpl. split; [tauto|]. intros (seen & E). prj.
   apply nth_error_In in E. rewrite Forall_forall in H. specialize (H _ E). discriminate.
 Qed.
